@@ -139,52 +139,106 @@ def _enclosing_value(ctx: Ctx, m: Func, call: ast.Call) -> Term:
     return ctx.X.at(m, cur)
 
 
+def _draw_sites(ctx: Ctx, c):
+    """[(method, call node, term, kind)] for every draw of the class: `<dist>.rvs(size=...)` / `<engine>.random(n)`."""
+    out = []
+    methods = list(c.methods.values())
+    for m in list(methods):
+        methods += list(m.nested.values())
+    for m in methods:
+        for call in calls_in(m):
+            t = ctx.X.at(m, call)
+            if t[0] == "call" and t[1][0] == "attr" and t[1][2] == "rvs":
+                out.append((m, call, t, "rvs"))
+            elif t[0] == "call" and t[1][0] == "attr" and t[1][2] == "random" and t[2]:
+                out.append((m, call, t, "random"))
+    return out
+
+
 @rule(P)
 def c17_2(ctx: Ctx) -> RuleResult:
     res = RuleResult("C17.2", "COH", "shared: one realization drawn and repeated on axis 0; result is zeros(R, P, V) with the samples scattered at the sampler's mask")
     X = ctx.X
+    from ..util import bool_nnf, deep_subterms, path_condition
+
     for c in sampler_impls(ctx):
         gen = c.methods.get("generate_samples")
         if gen is None:
             continue
-        # the draw helpers receive `1 if shared else R`
-        draws = []
-        for call in calls_in(gen):
-            cs = ctx.cg.callees_of_call(gen, call)
-            if any(g.cls is c and any(isinstance(x.func, ast.Attribute) and x.func.attr in ("rvs", "random") for x in calls_in(g) ) or any(
-                    isinstance(x.func, ast.Attribute) and x.func.attr in ("rvs", "random") for nf in g.nested.values() for x in calls_in(nf)) for g in cs):
-                draws.append(call)
+        draws = _draw_sites(ctx, c)
         if not draws:
-            raise AnalysisError(f"{c.name}.generate_samples: draw helper calls not found")
-        for call in draws:
-            t = X.at(gen, call)
-            a0 = t[2][0] if t[2] else None
-            ok = (
-                a0 is not None and a0[0] == "ifexp" and a0[1][0] == "attr" and a0[1][2] == "shared" and a0[2] == ("const", 1)
-                and "realizations" in show(a0[3]) and a0[3][0] == "attr" and a0[3][2] == "size"
-            )
-            res.add(gen, call, "the number of realizations drawn is 1 if shared else the ensemble size", ok,
-                    "" if ok else f"first argument is `{show(a0, 80) if a0 else '?'}`", construct=f"{c.name}: draw count {norm_stmt(call)[:40]}")
-        # repeat under `if shared`
-        reps = [cl for cl in calls_in(gen) if X.at(gen, cl.func) == ("global", "numpy.repeat")]
-        ok = False
-        for cl in reps:
-            t = X.at(gen, cl)
-            axis0 = any(k == "axis" and v == ("const", 0) for k, v in t[3]) or (len(t[2]) > 2 and t[2][2] == ("const", 0))
-            count_ok = len(t[2]) > 1 and "realizations" in show(t[2][1])
-            cur = parent(cl)
-            guarded = False
-            while cur is not None and cur is not gen.node:
-                if isinstance(cur, ast.If):
-                    ct = X.value_at(gen, cur.test)
-                    guarded = ct[0] == "attr" and ct[2] == "shared"
-                cur = parent(cur)
-            ok = ok or (axis0 and count_ok and guarded)
-        res.add(gen, reps[0] if reps else gen.node, "shared samples are repeated ensemble-size times on axis 0, only when shared", ok,
+            raise AnalysisError(f"{c.name}: no draw (rvs / random) found")
+        dim_ok_all = True
+        for m, call, t, kind in draws:
+            # the number of realizations drawn: first entry of size= / first factor of n
+            if kind == "rvs":
+                size = dict(t[3]).get("size")
+                first = size[1][0] if size is not None and size[0] == "tuple" and size[1] else size
+                last = size[1][-1] if size is not None and size[0] == "tuple" and size[1] else None
+            else:
+                n_ = t[2][0]
+                first = n_
+                last = None
+            seen = list(deep_subterms(ctx, m, first, 4)) if first is not None else []
+
+            def is_count_choice(hy):
+                h_, y = hy
+                if y[0] != "ifexp":
+                    return False
+                cnd, a, b = y[1], y[2], y[3]
+                neg = False
+                while cnd[0] == "unary" and cnd[1] == "not":
+                    cnd, neg = cnd[2], not neg
+                if not (cnd[0] == "attr" and cnd[2] == "shared"):
+                    return False
+                one, many = (b, a) if neg else (a, b)
+                return one == ("const", 1) and any(yy[0] == "attr" and yy[2] == "size" and "realizations" in show(yy) for _g, yy in deep_subterms(ctx, h_, many, 3))
+
+            ok = any(is_count_choice(y) for y in seen)
+            res.add(m, call, "the number of realizations drawn is 1 if shared else the ensemble size", ok,
+                    "" if ok else f"the first sample dimension is `{show(first, 80) if first is not None else '?'}`", construct=f"{c.name}: draw count ({kind})")
+            # the sample dimension: V without a mask, mask.sum() with one
+            dims = [y for _h, y in deep_subterms(ctx, m, last if last is not None else t, 4)]
+            if kind == "random":
+                # the dimension of a QMC engine is fixed when the engine is created
+                dims = [y for mm in c.methods.values() for cl in calls_in(mm) for y in subterms(X.at(mm, cl)) if y[0] == "ifexp"] + dims
+
+            def is_dim_choice(y):
+                if y[0] != "ifexp":
+                    return False
+                cnd, a, b = y[1], y[2], y[3]
+                if not (cnd[0] == "cmp" and cnd[1] in ("is", "is not") and cnd[3] == ("const", None) and cnd[2][0] == "attr" and "mask" in cnd[2][2]):
+                    return False
+                nomask, withmask = (a, b) if cnd[1] == "is" else (b, a)
+                return (nomask[0] == "attr" and nomask[2] == "size" and "initial_values" in show(nomask)
+                        and withmask[0] == "call" and withmask[1][0] == "attr" and withmask[1][2] == "sum" and "mask" in show(withmask))
+
+            if not any(is_dim_choice(y) for y in dims):
+                dim_ok_all = False
+        # repeat under `shared`
+        reps = []
+        for m in c.methods.values():
+            for cl in calls_in(m):
+                if X.at(m, cl.func) == ("global", "numpy.repeat"):
+                    t = X.at(m, cl)
+                    axis0 = any(k == "axis" and v == ("const", 0) for k, v in t[3]) or (len(t[2]) > 2 and t[2][2] == ("const", 0))
+                    count_ok = len(t[2]) > 1 and "realizations" in show(t[2][1])
+                    st_ = cl
+                    while parent(st_) is not None and not isinstance(st_, ast.stmt):
+                        st_ = parent(st_)
+                    guarded = False
+                    pc = path_condition(ctx, m, st_)
+                    if pc:
+                        g_ = bool_nnf(("bool", "and", tuple(c_ if p_ else ("unary", "not", c_) for c_, p_ in pc)))
+                        guarded = any(it[0] == "lit" and it[2] and it[1][0] == "attr" and it[1][2] == "shared" for it in (g_[1] if g_[0] == "and" else [g_]))
+                    if axis0 and count_ok:
+                        reps.append((m, cl, guarded))
+        ok = any(g for _m, _c, g in reps)
+        res.add(gen, reps[0][1] if reps else gen.node, "shared samples are repeated ensemble-size times on axis 0, only when shared", ok,
                 "" if ok else "shared perturbations are not broadcast over the realization axis", construct=f"{c.name}: shared repeat")
-        # masked scatter
-        rt = X.return_term(gen)
-        masked = [a for a in alts(rt) if a[0] == "update"]
+        # masked scatter: the value generate_samples returns (helpers seen through)
+        rt = X.force_inline(X.return_term(gen), gen, effects=True)
+        masked = [a for a in subterms(rt) if a[0] == "update"]
         ok = False
         for a in masked:
             base, idx, val = a[1], a[3], a[4]
@@ -194,12 +248,7 @@ def c17_2(ctx: Ctx) -> RuleResult:
             ok = ok or (zeros and shape_roles and idx_ok)
         res.add(gen, gen.node, "with a mask the result is zeros((R, P, V)) with the samples written at [..., mask]", ok,
                 "" if ok else f"masked result is `{show(rt, 120)}`", construct=f"{c.name}: masked scatter")
-        # the sample dimension is the number of handled variables
-        dim_ok = any(
-            s[0] == "ifexp" and s[2][0] == "attr" and s[2][2] == "size" and "initial_values" in show(s[2]) and s[3][0] == "call" and s[3][1][0] == "attr" and s[3][1][2] == "sum" and "mask" in show(s[3])
-            for call in draws for s in subterms(X.at(gen, call))
-        )
-        res.add(gen, gen.node, "the sample dimension is V without a mask and mask.sum() with one", dim_ok, "" if dim_ok else "sample dimension does not follow the mask",
+        res.add(gen, gen.node, "the sample dimension is V without a mask and mask.sum() with one", dim_ok_all, "" if dim_ok_all else "sample dimension does not follow the mask",
                 construct=f"{c.name}: sample dimension")
     res.floor = 4
     return res
